@@ -426,8 +426,13 @@ func (g *ctlGen) gen() *event {
 		}
 	case "tmorx":
 		ev.typ, ev.tk = "tmo", "rx"
-		if len(g.sent) > 0 && r.chance(90) {
+		if len(g.sent) > 0 && r.chance(80) {
 			o := g.sent[len(g.sent)-1-r.intn(min(len(g.sent), 8))]
+			ev.peer, ev.seq = o.peer, o.seq
+		} else if len(g.outst) > 0 && r.chance(70) {
+			// a stale retention expiry whose "<address>-<sequence>" also names an OUTSTANDING request to that peer: the request
+			// must be neither retried nor abandoned by it
+			o := g.outst[r.intn(len(g.outst))]
 			ev.peer, ev.seq = o.peer, o.seq
 		} else {
 			ev.peer, ev.seq = g.peer(), uint32(r.intn(8))
